@@ -71,6 +71,8 @@ def enc_cm3_line(cur, prev, rnd, mode):
         bits = bits + [filler if filler in (0, 1) else rnd.randrange(2) for _ in range(-len(bits) % 8)]
         return bytes(sum(b << (7 - k) for k, b in enumerate(bits[i:i + 8])) for i in range(0, len(bits), 8))
     s2 = pack(bits2, rnd.choice((0, 1, 2)))
+    if mode in ("spare", "nolift") and len(bits2) % 8 == 0:
+        s2 += bytes([rnd.randrange(256)])       # the historical encoder's count is ones // 8 + 1: one unused byte when the bits fill whole bytes
     if len(s2) > 127:
         return None
     return bytes([len(s2)]) + pack(sel1) + s2 + bytes(lits)
@@ -179,6 +181,17 @@ def gen(seed, scale):
                             data += enc
                             prev = cur
                     cases.append(("cm3toppm", bytes(data), {}, "cm3/%s,pages=%d,pattern=%d" % (mode, pages, motif), "raw" if mode == "raw" else "packed"))
+    # CM3 lines coded entirely through the second mask (every byte new: 160 bits, 20 bytes + the encoder's spare byte = control 21)
+    for motif in (0, 1):
+        pal = [rnd.randrange(64) for _ in range(16)]
+        data = bytearray([0 if motif else 1]) + bytes(pal) + bytes(12) + (bytes(rnd.randrange(256) for _ in range(243)) if motif else b"") + bytes([192])
+        prev = [0] * 160
+        for ln in range(192):
+            cur = [(prev[x] + 1 + rnd.randrange(254)) % 256 for x in range(160)] if ln % 3 else list(content(rnd, 160, "runs"))
+            enc = enc_cm3_line(cur, prev, rnd, "nolift" if ln % 3 else "spare")
+            data += enc if enc is not None else enc_cm3_line(cur, prev, rnd, "raw")
+            prev = cur
+        cases.append(("cm3toppm", bytes(data), {}, "cm3/all-new lines (control 21),pattern=%d" % motif, "packed"))
     # MAX: table-driven pixel modes, header-derived and explicit sizes, newsroom, skip
     for arte in (0, 3, 4, 5, 6, 7, 8):
         for kind in ("rand", "nib"):
@@ -190,7 +203,7 @@ def gen(seed, scale):
     cases.append(("maxtoppm", bytes(7) + bytes([0, 0x18, 0, 0, 0]) + content(rnd, 32 * 192, "rand"), dict(arte=3, skip=7), "max/skip=7", "options"))
     cases.append(("maxtoppm", bytes([10, 20]) + content(rnd, 10 * 20, "rand"), dict(arte=0, newsroom=True), "max/newsroom", "options"))
     # PIX
-    for side in (2, 4, 128, 256):
+    for side in (2, 4, 6, 10, 100, 128, 200, 256):
         cases.append(("pixtopgm", content(rnd, side * side // 2, "rand"), {}, "pix/side=%d" % side, "raw"))
     cases.append(("pixtopgm", bytes(range(256)) * 2, {}, "pix/every byte value", "raw"))
     cases.append(("pixtopgm", bytes(512), {}, "pix/all zero", "raw"))
@@ -201,6 +214,9 @@ def gen(seed, scale):
             pal = [rnd.randrange(64) for _ in range(16)]
             body = content(rnd, nbytes, kind)
             cases.append(("veftopng", bytes([0, typ]) + bytes(pal) + body, {}, "vef/type=%d,raw,%s" % (typ, kind), "raw"))
+            if kind == "rand":
+                cases.append(("veftopng", bytes([0, typ]) + bytes(pal) + body[:-40] + bytes(40), {}, "vef/type=%d,raw,zero tail" % typ, "raw"))
+                cases.append(("veftopng", bytes([0, typ]) + bytes(pal) + bytes(40) + body[40:], {}, "vef/type=%d,raw,zero head" % typ, "raw"))
             sq = bytearray([128, typ]) + bytes(pal)
             ok = True
             for k in range(400):
@@ -242,6 +258,11 @@ def gen(seed, scale):
         seen_tools.add(tool)
         for cut in range(0, 9):
             damaged.append((tool, data[:cut], opts, label + ",prefix of %d bytes" % cut, "damaged"))
+    # header bytes with a fixed value in the format: every other value is a damaged file
+    for tool, data, opts, label, fam in base:
+        if tool == "mgetoppm" and label.startswith("mge/") and "comp=0" in label:
+            for v in (1, 2, 3, 0x80, 0xFF):
+                damaged.append((tool, bytes([v]) + data[1:], opts, label + ",first byte %d" % v, "damaged"))
     # CM3: the control byte of a compressed line announces fewer mask bytes than the line's "new value" bits consume
     for which in ("last", "middle", "first-compressed"):
         pal = [rnd.randrange(64) for _ in range(16)]
